@@ -134,7 +134,8 @@ CHECKS = {
              "48-world catalogue D (2-step exhaustive in thorough + a fixed set of 3-4 step histories, with and without import following, with "
              "recheck), catalogue D2 (interface features x ways of depending on them) and fine-grained-cache starts are replayed, failures delta-minimised "
              "to canonical 1-minimal histories; the repository's 713 fine-grained scenarios run on a real Server with their expected output ignored "
-             "(own order + there-and-back; thorough: reversed), every response against a fresh build.",
+             "(own order + there-and-back, and with the daemon started from a fine-grained cache written by a batch build of the first step; thorough: reversed), "
+             "every response against a fresh build.",
         design_ref="DESIGN.md 5.C03, 10",
         note="catalogue of three modules (re-export / inferred / internal use, import removed, file absent, syntax error); in-process "
              "Server.check / cmd_recheck with test fixtures; known findings: the blocker-recovery family, def -> class kind change, fine-grained-cache families, package / submodule deletion and undo "
